@@ -32,14 +32,14 @@ func runCancels(c *Ctx, sh *shared, dir string) {
 	b := NewNode(c.Bin, "c05b-cancels", dirB, fmt.Sprintf("- tcp-listener:\n    port: %d\n", portB)+workCommandYAML(dirB))
 	logA, logB := filepath.Join(dirA, "status.log"), filepath.Join(dirB, "status.log")
 	b.Env = []string{"VERIF_STATUS_LOG=" + logB}
-	if err := b.Start(); err != nil {
+	if err := startNode(b); err != nil {
 		fail("node B does not start: "+err.Error(), "harness-start")
 		return
 	}
 	defer func() { b.Stop(); b.KillStrays() }()
 	a := NewNode(c.Bin, "c05a-cancels", dirA, fmt.Sprintf("- tcp-peer:\n    address: 127.0.0.1:%d\n", portB))
 	a.Env = []string{"VERIF_STATUS_LOG=" + logA}
-	if err := a.Start(); err != nil {
+	if err := startNode(a); err != nil {
 		fail("node A does not start: "+err.Error(), "harness-start")
 		return
 	}
